@@ -5,23 +5,24 @@ EXTENDS Front, Json, TLCExt, IOUtils
 TTraceFile == IF "TRACE" \in DOMAIN IOEnv THEN IOEnv.TRACE ELSE "trace.ndjson"
 TraceLog == ndJsonDeserialize(TTraceFile)
 VARIABLES l, viol, cover
-tvars == <<m, r, l, viol, cover>>
+tvars == <<m, r, reached, jar, n, l, viol, cover>>
 Line == TraceLog[l]
 Range(s) == {s[i] : i \in 1..Len(s)}
 \* e: [mechs, method, authz (class name), scheme, wellFormed, confirmed, free, status, challenges, reached, user, wantUser, panicked]
 Bad(e) ==
   LET ms == Range(e.mechs)
       rq == [scheme |-> e.scheme, wellFormed |-> e.wellFormed, confirmed |-> e.confirmed] IN
-  (IF ~e.free /\ MayNotReach(ms, rq) /\ e.reached THEN {"G_C05_OnlyConfirmedCredentials"} ELSE {})
+  (IF ~e.free /\ MayNotReach(ms, rq) /\ e.reached THEN {IF Len(e.prior) > 0 THEN "G_C05_HistoryOpensNothing" ELSE "G_C05_OnlyConfirmedCredentials"} ELSE {})
   \cup (IF ~e.free /\ ShouldReach(ms, rq) /\ ~e.reached THEN {"G_C05_ConfirmedCredentialsReach"} ELSE {})
   \cup (IF e.reached /\ ~OpenAtHttp(ms) /\ e.user # e.wantUser THEN {"G_C05_UserIsTheConfirmedOne"} ELSE {})
   \cup (IF e.scheme = "none" /\ ~OpenAtHttp(ms) /\ ~(e.status = 401 /\ Range(e.challenges) = Challenges(ms)) THEN {"G_C05_ChallengePerScheme"} ELSE {})
   \cup (IF e.panicked THEN {"G_C10_NoPanic"} ELSE {})
-TInit == l = 1 /\ viol = {} /\ cover = {} /\ m = {"openid"} /\ r = [scheme |-> "none", wellFormed |-> FALSE, confirmed |-> FALSE]
+TInit == /\ l = 1 /\ viol = {} /\ cover = {} /\ m = {"openid"} /\ r = [scheme |-> "none", wellFormed |-> FALSE, confirmed |-> FALSE]
+         /\ reached = TRUE /\ jar = FALSE /\ n = 1
 TNext == /\ l <= Len(TraceLog)
          /\ viol' = viol \cup {<<l, g, Line.cls, Line.authz>> : g \in Bad(Line)}
-         /\ cover' = cover \cup {<<Line.cls, Line.authz, Line.reached>>}
-         /\ l' = l + 1 /\ UNCHANGED <<m, r>>
+         /\ cover' = cover \cup {<<Line.cls, Line.authz, Line.reached>>} \cup (IF Len(Line.prior) > 0 THEN {<<"after", Line.prior[Len(Line.prior)], Line.authz, Line.cookies > 0>>} ELSE {})
+         /\ l' = l + 1 /\ UNCHANGED <<m, r, reached, jar, n>>
 TSpec == TInit /\ [][TNext]_tvars
 AtEnd == l = Len(TraceLog) + 1 =>
            PrintT(<<"VERIF_RESULT", ToJson([viol |-> viol, cover |-> cover, lines |-> Len(TraceLog)])>>)
